@@ -96,9 +96,11 @@ pred allChangeAble(shards) = forall s in shards :: s.changeAble
 // the planning steps only add to planned sets (C01: nothing is taken away after gcTargets)
 pred monotone(shards) = forall s in shards :: forall h in old(keys(s.scraping)) :: h in s.scraping
 
-// shards outside the slice handed to a step keep their planned set (their map is not written)
-pred othersKeepKeys(shards) = forall o : *shardInfo ::
-    (o.scraping != nil && gScrOwner[o.scraping] == o && !(o in shards)) ==> keys(o.scraping) == old(keys(o.scraping))
+// shards outside the slice handed to a step are left alone: same planned set, same loads
+pred owned(o) = o.runtime != nil && o.runtime.gOwner == o && (o.scraping != nil ==> gScrOwner[o.scraping] == o)
+pred untouched(o) = o.gHead == old(o.gHead) && o.gProc == old(o.gProc) && samemap(o.scraping)
+    && o.runtime.HeadSeries == old(o.runtime.HeadSeries) && o.runtime.ProcessSeries == old(o.runtime.ProcessSeries)
+pred othersKeepKeys(shards) = forall o : *shardInfo :: (old(owned(o)) && !(o in shards)) ==> untouched(o)
 
 contract Coordinator.alleviateShardHeadSeries
   requires wfOpt(c) && wfShards(changeAbleShards) && allChangeAble(changeAbleShards) && s in changeAbleShards
@@ -181,4 +183,46 @@ contract Coordinator.tryScaleUp
   ensures[C07] @never_below_current result >= len(shard)
   ensures[C03] @more_space_more_shards ((forall s in shard :: s.changeAble) && sp.headSpace >= 0 && sp.processSpace >= 0 && (sp.headSpace > 0 || sp.processSpace > 0)) ==> result > len(shard)
   modifies nothing
+
+// ---------- scale down (C07) ----------
+pred distinctShards(shards) = forall a in 0..len(shards) :: forall b in 0..len(shards) :: a != b ==> shards[a] != shards[b]
+
+// a shard may be removed only if it is in sync, holds no target (also none given in this cycle) and has been
+// idle for longer than max-idle-time
+pred removable(c, s) = s.changeAble && s.runtime.IdleStartAt != nil && len(s.scraping) == 0
+    && gClock - deref(s.runtime.IdleStartAt) > c.option.MaxIdleTime
+
+contract Coordinator.shardCanBeIdle
+  requires wfOpt(c) && wfShards(shards) && wfShard(src)
+  modifies nothing
+  loop 1 invariant fresh(availableSpaces)
+  loop 2 invariant fresh(availableSpaces)
+  loop 3 invariant fresh(availableSpaces)
+
+contract Coordinator.shardBecomeIdle
+  requires wfOpt(c) && wfShards(shards) && wfShard(src)
+  ensures wfShards(shards) && wfShard(src)
+  ensures[C01] monotone(shards) && (forall h in old(keys(src.scraping)) :: h in src.scraping)
+  ensures othersKeepKeys(shards)
+  modifies shard.RuntimeInfo.HeadSeries, shard.RuntimeInfo.ProcessSeries, target.ScrapeStatus.TargetState, target.ScrapeStatus.* at {},
+           mapof(shardInfo.scraping), shardInfo.gHead, shardInfo.gProc
+  loop 1 invariant wfShards(shards) && wfShard(src)
+  loop 1 invariant[C01] monotone(shards) && (forall h in old(keys(src.scraping)) :: h in src.scraping)
+  loop 1 invariant othersKeepKeys(shards)
+
+contract Coordinator.tryScaleDown
+  requires wfOpt(c) && wfShards(shards) && distinctShards(shards)
+  ensures[C07] @scale_in_range 0 <= result && result <= len(shards)
+  ensures[C07] @only_removable_shards_dropped forall j in result..len(shards) :: removable(c, shards[j])
+  ensures wfShards(shards)
+  ensures[C01] monotone(shards)
+  ensures gClock >= old(gClock)
+  modifies shard.RuntimeInfo.HeadSeries, shard.RuntimeInfo.ProcessSeries, target.ScrapeStatus.TargetState, target.ScrapeStatus.* at {},
+           mapof(shardInfo.scraping), shardInfo.gHead, shardInfo.gProc, gClock
+  loop 1 invariant 0 - 1 <= i && i < len(shards) && scale == i + 1 && gClock >= old(gClock)
+  loop 1 invariant[C07] @tail_removable forall j in scale..len(shards) :: removable(c, shards[j])
+  loop 2 invariant 0 - 1 <= i && i < scale && scale <= len(shards) && 0 <= scale && gClock >= old(gClock)
+  loop 2 invariant[C07] @tail_removable forall j in scale..len(shards) :: removable(c, shards[j])
+  loop 2 invariant wfShards(shards)
+  loop 2 invariant[C01] monotone(shards)
 @*/
